@@ -16,7 +16,7 @@ RULE = ("random fit/score call histories (4-10 calls quick, up to 20 thorough) o
         "training arrays in place (a row of X 'repaired', a label flipped, the label array replaced by a new object) between a score and the next fit, followed by re-fits that "
         "pass the same array OBJECT with changed contents / changed labels (the data-repair loop; part of the histories open with fit, score, in-place repair, fit with the same "
         "objects, score; when a bruteforce object with a pipeline and a multi-candidate provenance are both present, most histories open with that object fitted on it and scored "
-        "three times - the same call twice, then a random validation set); byte snapshots of every caller-owned object - feature "
+        "repeatedly - the same call twice, then every validation set of the pool); byte snapshots of every caller-owned object - feature "
         "arrays, label arrays / Series (values and index), Provenance objects (data and Units lists) and provenance given as integer id arrays (1-D and (unit, candidate) pairs), the distance matrix returned by a recording distance callable, the "
         "utility's model get_params() and fitted attributes - are taken before the history (refreshed after a caller's own edit) and compared after EVERY call; every score is compared with the score of a "
         "fresh object (fresh utility, fresh pipeline) fitted on the same data (no leakage from earlier fits/scores) and repeated neighbor/bruteforce scores must be identical; np.geterr(), np.geterrcall(), "
@@ -58,7 +58,7 @@ def run(ctx):
         datasets = []
         for d in range(rng.randint(2, 3)):
             n = rng.randint(3, 4 if q else 5)
-            prov_kind = rng.choice(["none", "conj", "series", "ids1d", "pairs2d", "multicand", "multicand"])
+            prov_kind = rng.choice(["none", "conj", "series", "ids1d", "pairs2d", "multicand", "multicand", "multicand"])
             mc = None
             if prov_kind == "multicand":
                 # explicit map/fork provenance over 3 candidate values: some unit owns alternative versions of its record under two candidate values, so the
@@ -75,7 +75,7 @@ def run(ctx):
                         X[r, 0] = round(X[r, 0] + rng.choice([-1, 1]) * rng.uniform(2, 6), 3)
             y = np.array([i % 2 for i in range(n)])
             nprng.shuffle(y)
-            m = rng.randint(2, 3)
+            m = rng.randint(2, 3) if mc is None else rng.randint(3, 5)
             Xv = np.round(nprng.randn(m, 2), 3)
             Xv[:, 1] = (Xv[:, 1] > 0).astype(float)
             yv = np.array([k % 2 for k in range(m)])
@@ -166,7 +166,7 @@ def run(ctx):
                      "scale+kbest": [("sc", StandardScaler()), ("kb", SelectKBest(k=1))]}
             return Pipeline(steps[kind]) if kind != "none" else None
         pipe_kinds = [(rng.choice(["none", "scale", "scale", "kbest", "kbest", "scale+kbest"]) if mth.startswith("neighbor") else
-                       rng.choice(["none", "scale", "center", "center", "kbest", "scale+kbest"]) if mth == "bruteforce" else "none") for mth in methods]
+                       rng.choice(["none", "scale", "scale", "center", "center", "kbest", "scale+kbest"]) if mth == "bruteforce" else "none") for mth in methods]
         if util_kind == "eqodds":
             # this utility reads its sensitive feature as column 1 of the features it is handed: a pipeline that drops columns is not a valid combination
             pipe_kinds = [pk if pk in ("none", "scale", "center") else "scale" for pk in pipe_kinds]
@@ -235,11 +235,11 @@ def run(ctx):
         with_pipe = [oo for oo in range(len(objs)) if pipe_kinds[oo] != "none"]
         bf_pipe = [oo for oo in with_pipe if methods[oo] == "bruteforce"]
         partial = [dd for dd in range(len(datasets)) if datasets[dd]["partial"]]
-        if bf_pipe and partial and rng.random() < 0.8:
+        if bf_pipe and partial and rng.random() < 0.9:
             # the history opens with a bruteforce object WITH a pipeline fitted on a provenance whose full coalition does not select every row, scored
-            # repeatedly: the same call twice, then (possibly) other validation data; every score is also compared with a fresh object's
+            # repeatedly: the same call twice, then every validation set once more; every score is also compared with a fresh object's
             o1, d1, dv = rng.choice(bf_pipe), rng.choice(partial), rng.randrange(len(datasets))
-            ops += [("fit", o1, d1), ("score", o1, dv), ("score", o1, dv), ("score", o1, rng.randrange(len(datasets)))]
+            ops += [("fit", o1, d1), ("score", o1, dv), ("score", o1, dv)] + [("score", o1, dd) for dd in rng.sample(range(len(datasets)), len(datasets))]
             plan_fit[o1], planned[o1], scored[o1] = d1, True, True
             ctx.dist["opens_with_bruteforce_pipeline_partial_provenance_repeats"] += 1
         if not meta_aware and with_pipe and rng.random() < 0.8:
